@@ -25,7 +25,7 @@ open Strax
 
 /-- entries of a data directory -/
 inductive Name where
-  | meta                 -- `<prefix>-metadata.json`
+  | md                   -- `<prefix>-metadata.json`
   | chunk (i : Nat)      -- `<prefix>-00000i`
   | tmp (i : Nat)        -- `<prefix>-00000i_temp`
   | cmeta (i : Nat)      -- `metadata_<prefix>-00000i.json`  (forked savers)
@@ -57,7 +57,7 @@ def Meta.good (m : Meta) : Bool := m.ended && !m.exc
 inductive Content where
   | empty                          -- just truncated / created
   | rows (rs : List Row)           -- compressed chunk data
-  | meta (m : Meta)                -- metadata JSON
+  | json (m : Meta)                -- metadata JSON
   | info (ci : ChunkInfo)          -- per-chunk metadata JSON of a forked saver
 deriving DecidableEq, Repr, Inhabited
 
@@ -159,12 +159,12 @@ def apply (fs : FS) : Op → Except Err FS
 directory, else the one of the `_temp` twin ("so fast that there exists a temp folder"), else `DataCorrupted`;
 a file that does not parse is wrapped into `DataCorrupted` as well. -/
 def getMetadata (fs : FS) : Except Err Meta :=
-  let p1 := fs.final.bind (·.get .meta)
+  let p1 := fs.final.bind (·.get .md)
   let p := match p1 with
     | some c => some c
-    | none => fs.temp.bind (·.get .meta)
+    | none => fs.temp.bind (·.get .md)
   match p with
-  | some (.meta m) => .ok m
+  | some (.json m) => .ok m
   | some _ => .error .dataCorrupted
   | none => .error .dataCorrupted
 
@@ -272,6 +272,9 @@ structure HandlerSpec where
   variant : Variant
   extra : List Chunk
   extraStart : Nat
+  /-- the processor's handler never reaches this saver (single-thread processor: `kill_spies` stops at the first
+  saver that is already closed, D7), so a failure leaves it as it is -/
+  abandoned : Bool := false
 deriving DecidableEq, Repr, Inhabited
 
 structure Cfg where
@@ -296,7 +299,7 @@ and for the first chunk a flush of its own copy of the metadata -/
 def forkOps (i : Nat) (c : Chunk) : List Op :=
   (if c.rows.isEmpty then [] else writeOps i c.rows)
   ++ [.openTrunc .temp (.cmeta i), .write .temp (.cmeta i) (.info (infoOf i c)), .close .temp (.cmeta i)]
-  ++ (if i = 0 then [.openTrunc .temp .meta, .write .temp .meta (.meta ⟨[infoOf i c], false, false⟩), .close .temp .meta]
+  ++ (if i = 0 then [.openTrunc .temp .md, .write .temp .md (.json ⟨[infoOf i c], false, false⟩), .close .temp .md]
       else [])
 
 def flushItems : List Item := [.flushOpen, .flushWrite, .flushClose]
@@ -338,7 +341,8 @@ def initCfg (fs : FS) (v : Variant) (recheck : Bool) (cs : List Chunk) (h : Hand
 /-- the scheduler's choices -/
 inductive Act where
   | sav                  -- the saver thread performs its next item
-  | savFail              -- … its next item raises instead (I/O error, or an exception thrown in from elsewhere)
+  | savFail              -- … its next FS operation raises instead (I/O error)
+  | abort                -- an exception is thrown into the saver thread from elsewhere (plugin, other saver, mailbox kill)
   | rm (n : Name)        -- inside rmtree: unlink entry n next
   | wrk (k : Nat)        -- the k-th chunk write performs its next operation
   | wrkFail (k : Nat)    -- … which raises
@@ -346,7 +350,7 @@ deriving DecidableEq, Repr, Inhabited
 
 /-- the saver thread gets an exception -/
 def Cfg.fail (c : Cfg) : Cfg :=
-  if c.term then { c with prog := [], out := .raised, failed := true }
+  if c.term || c.spec.abandoned then { c with prog := [], out := .raised, failed := true }
   else { c with prog := handlerItems c.spec, term := true, handling := true, failed := true }
 
 def Cfg.pop (c : Cfg) : Cfg := { c with prog := c.prog.tail }
@@ -380,9 +384,9 @@ def workerSt (ws : List Worker) (i : Nat) : Option WSt := (ws.find? (·.i == i))
 def headOp (c : Cfg) : Option Op :=
   match c.prog with
   | .op o :: _ => some o
-  | .flushOpen :: _ => some (.openTrunc .temp .meta)
-  | .flushWrite :: _ => some (.write .temp .meta (.meta c.md))
-  | .flushClose :: _ => some (.close .temp .meta)
+  | .flushOpen :: _ => some (.openTrunc .temp .md)
+  | .flushWrite :: _ => some (.write .temp .md (.json c.md))
+  | .flushClose :: _ => some (.close .temp .md)
   | .checkTemp :: _ => some (.existsDir .temp)
   | .collect :: _ => some (.glob .temp)
   | .readInfo i :: _ => some (.read .temp (.cmeta i))
@@ -402,9 +406,9 @@ def step (c : Cfg) : Act → Option Cfg
       match c.fs.dir d with
       | some (_ :: _) => none                         -- the scheduler must pick an entry (`rm n`)
       | _ => some { c with prog := rest }
-    | .flushOpen :: rest => some (c.doOp (.openTrunc .temp .meta) rest)
-    | .flushWrite :: rest => some (c.doOp (.write .temp .meta (.meta c.md)) rest)
-    | .flushClose :: rest => some (c.doOp (.close .temp .meta) rest)
+    | .flushOpen :: rest => some (c.doOp (.openTrunc .temp .md) rest)
+    | .flushWrite :: rest => some (c.doOp (.write .temp .md (.json c.md)) rest)
+    | .flushClose :: rest => some (c.doOp (.close .temp .md) rest)
     | .armed :: rest => some { c with prog := rest, term := false }
     | .append ci :: rest => some { c with prog := rest, md := { c.md with chunks := c.md.chunks ++ [ci] } }
     | .submit i ops :: rest =>
@@ -439,6 +443,10 @@ def step (c : Cfg) : Act → Option Cfg
       match headOp c with
       | some o => some { c with log := o :: c.log }.fail
       | none => some c.fail
+  | .abort =>
+    match c.prog with
+    | [] => none
+    | _ :: _ => some c.fail
   | .rm n =>
     match c.prog with
     | .unlinks d :: _ =>
@@ -501,7 +509,7 @@ def start (fs : FS) : Start :=
 /-- D12 region: the final directory exists and has no metadata file -/
 def D12 (fs : FS) : Bool :=
   match fs.final with
-  | some d => (d.get .meta).isNone
+  | some d => (d.get .md).isNone
   | none => false
 
 /-! ## deterministic scheduling and fault injection (for the driver and for `decide` witnesses) -/
@@ -514,9 +522,9 @@ deriving DecidableEq, Repr, Inhabited
 def pickRm (o : RmOrder) (d : Dir) : Option Name :=
   match o with
   | .listed => d.head?.map (·.1)
-  | .metaFirst => if (d.get .meta).isSome then some .meta else d.head?.map (·.1)
+  | .metaFirst => if (d.get .md).isSome then some .md else d.head?.map (·.1)
   | .metaLast =>
-    match d.filter (fun e => e.1 != .meta) with
+    match d.filter (fun e => e.1 != .md) with
     | e :: _ => some e.1
     | [] => d.head?.map (·.1)
 
@@ -535,6 +543,7 @@ def autoAct (o : RmOrder) (c : Cfg) : Option Act :=
 
 /-- the operation an action is about to issue -/
 def actOp (c : Cfg) : Act → Option Op
+  | .abort => none
   | .sav | .savFail =>
     match c.prog with
     | .unlinks _ :: _ => none
@@ -553,6 +562,7 @@ def failOf : Act → Act
 
 inductive FaultKind where
   | exc | dieBefore | dieAfter
+  | abort        -- once k operations have been issued an exception is thrown into the saver thread
 deriving DecidableEq, Repr, Inhabited
 
 /-- a fault: the `k`-th FS operation (counted over the whole attempt, all threads) raises / is the last thing
@@ -562,10 +572,20 @@ structure Fault where
   kind : FaultKind
 deriving DecidableEq, Repr, Inhabited
 
+def abortNow (ft : Option Fault) (c : Cfg) : Bool :=
+  match ft with
+  | some f => f.kind == .abort && c.log.length == f.k && !c.failed && !c.prog.isEmpty
+  | none => false
+
 /-- eager execution with at most one fault; returns the configuration and whether the process died -/
 def runAuto (o : RmOrder) (ft : Option Fault) : Nat → Cfg → Cfg × Bool
   | 0, c => (c, false)
   | fuel + 1, c =>
+    if abortNow ft c then
+      match step c .abort with
+      | some c' => runAuto o ft fuel c'
+      | none => (c, false)
+    else
     match autoAct o c with
     | none => (c, false)
     | some a =>
@@ -583,7 +603,7 @@ def runAuto (o : RmOrder) (ft : Option Fault) : Nat → Cfg → Cfg × Bool
         match step c a with
         | some c' => (c', true)
         | none => (c, false)
-      | none =>
+      | some .abort | none =>
         match step c a with
         | some c' => runAuto o ft fuel c'
         | none => (c, false)
